@@ -1,3 +1,298 @@
-import StirVerif.C15.Model
+/-
+C15 — rebinning and resampling conserve counts and physical positions: the property theorems.
+Proofs are in `ProofsSSRB`, `ProofsGroup`, `ProofsData`, `ProofsTof`, `ProofsBins`, `ProofsTotal`, `ProofsPhi`, `ProofsZoom`; this file only states them.
+
+Units: axial coordinate `m` in quarter ring spacings (`Seg.m4`), TOF positions in unmashed TOF bins, image coordinates in `ℚ`.
+-/
+import StirVerif.C15.ProofsGroup
+import StirVerif.C15.ProofsBins
+import StirVerif.C15.ProofsTotal
+import StirVerif.C15.ProofsTof
+import StirVerif.C15.ProofsPhi
+import StirVerif.C15.ProofsZoom
+
 namespace StirVerif.C15
+open StirVerif.C01 Finset
+
+/-! ## SSRB -/
+
+/-- "puts the counts of every detector pair into the bin that the output geometry assigns to that pair" — the axial coordinate:
+    in any segment whose axial positions sit on the physical rings, the `m` of the axial position assigned to ring pair `(r1, r2)`
+    is the physical mid-point `2·(r1 + r2 − (R−1))` (quarter ring spacings), for every number of rings `R`. -/
+theorem C15_m_of_ring_pair (R : Int) (s : Seg) (off r1 r2 : Int) (hoff : s.axOff R = some off) (hex : s.Exact off)
+    (hrd : s.minRD ≤ r2 - r1 ∧ r2 - r1 ≤ s.maxRD) :
+    s.m4 (s.axOf off r1 r2) = 2 * (r1 + r2 - (R - 1)) :=
+  m4_axOf R s off r1 r2 hoff hex hrd
+
+/-- `ssrb_commutes_with_binning`, axial (ring-pair) part, for every number of rings and every `num_segments_to_combine` (its half `≥ 0`):
+    let `og` be the output segment `os` built by `SSRB(ProjDataInfo…)` from the input segments `os·k − k/2 … os·k + k/2`; for every ring
+    pair binned by the input geometry into `(is, ia)` with `is` in that group, the *output geometry's own* binning of the pair
+    (`og.axOf`) exists, is in range, has the same `m`, and lies in the ring-difference range of `og`. -/
+theorem C15_ssrb_axial_commutes (p : PDI) (kSeg os : Int) (og : Seg) (hk : 0 ≤ kSeg.tdiv 2)
+    (h : ssrbOutSeg p kSeg os = some og)
+    (wf : GroupWF p (os * kSeg - kSeg.tdiv 2) (os * kSeg + kSeg.tdiv 2))
+    (is : Int) (his : os * kSeg - kSeg.tdiv 2 ≤ is ∧ is ≤ os * kSeg + kSeg.tdiv 2) (sg : Seg) (hsg : p.seg? is = some sg)
+    (off : Int) (hoff : sg.axOff p.R = some off) (hex : sg.Exact off)
+    (r1 r2 : Int) (hrd : sg.minRD ≤ r2 - r1 ∧ r2 - r1 ≤ sg.maxRD)
+    (hax : 0 ≤ sg.axOf off r1 r2 ∧ sg.axOf off r1 r2 < sg.numAx) :
+    ∃ offO, og.axOff p.R = some offO ∧ og.Exact offO ∧ og.minRD ≤ r2 - r1 ∧ r2 - r1 ≤ og.maxRD ∧
+      0 ≤ og.axOf offO r1 r2 ∧ og.axOf offO r1 r2 < og.numAx ∧
+      og.m4 (og.axOf offO r1 r2) = sg.m4 (sg.axOf off r1 r2) :=
+  ssrbOutSeg_commutes p kSeg os og hk h wf is his sg hsg off hoff hex r1 r2 hrd hax
+
+/-- the scan of `SSRB(ProjData&…)` over the axial positions (first position with equal `m`, then `break`) selects exactly the
+    position with that `m`: no sinogram is added twice, none is missed. -/
+theorem C15_ssrb_axial_target_unique (sg : Seg) (a : Int) (ha : 0 ≤ a ∧ a < sg.numAx) : firstAxWithM sg (sg.m4 a) = some a :=
+  firstAxWithM_eq sg a ha
+
+/-- `ssrb_commutes_with_binning`, view part: `in_view / num_views_to_combine` is the view the output geometry (mashing `m·k`) assigns -/
+theorem C15_ssrb_view_commutes (u m k : Int) (hu : 0 ≤ u) (hm : 0 < m) (hk : 0 < k) : (u.tdiv m).tdiv k = u.tdiv (m * k) :=
+  view_commutes u m k hu hm hk
+
+/-- `ssrb_commutes_with_binning`, TOF part (odd mashing factor, odd number of TOF bins to combine) -/
+theorem C15_ssrb_tof_commutes (t m k ot : Int) (hm : 0 < m) (hmo : m % 2 = 1) (hk : 0 < k) (hko : k % 2 = 1) :
+    tofInWindow m (m * k) (roundDiv t m) ot = true ↔ ot = roundDiv t (m * k) :=
+  tof_commutes t m k ot hm hmo hk hko
+
+
+/-- **`ssrb_commutes_with_binning`** (full bins, real data structures, every number of rings / detectors / segments).
+    `pout = SSRB(pin, kSeg, kView, trim, maxSeg, kTof)`, `kSeg > 0`; `pin` well formed (`PDI.WF`; decidable form `PDI.wfb`, see
+    `C15_wfb_sound`); views `N/2 = V·mIn`, `kView ∣ V`; TOF: non-TOF input, or TOF scanner with odd mashing factor and odd `kTof`.
+    For every detector-position pair `dp` (its azimuthal index `≥ 0`: C01 proves this for valid detector numbers) binned by the input
+    geometry into `bi` (inside the input's axial range) and by the output geometry into `bo`: the loop nest of `SSRB(out, in)` adds input
+    sinogram `(bi.seg, bi.ax, bi.tof)` into output sinogram `(bo.seg, bo.ax, bo.tof)`, view `bi.view / kView = bo.view`, same tangential position. -/
+theorem C15_ssrb_commutes_with_binning (pin pout : PDI) (kSeg kView trim maxSegArg kTof : Int)
+    (hinfo : ssrbInfo pin kSeg kView trim maxSegArg kTof = some pout) (hk : 0 < kSeg) (wf : pin.WF)
+    (mIn W : Int) (hmash : pin.N.tdiv 2 = pin.numViews * mIn) (hmIn : 0 < mIn) (hV : pin.numViews = W * kView) (hW : 0 < W)
+    (hkV : 0 < kView)
+    (htof0 : pin.tofMash = 0 ∨ (0 < pin.tofMash ∧ pin.tofMash % 2 = 1 ∧ kTof % 2 = 1 ∧ 0 < pin.T))
+    (dp : DetPair) (hv : 0 ≤ (detToViewTang pin.N dp.d1 dp.d2).1) (bi bo : Bin)
+    (hbi : pin.toGeom.binForDetPair dp = some bi) (hbir : ∀ sg, pin.seg? bi.seg = some sg → 0 ≤ bi.ax ∧ bi.ax < sg.numAx)
+    (hbo : pout.toGeom.binForDetPair dp = some bo) :
+    pullsSino pin pout bo.seg bo.ax bo.tof bi.seg bi.ax bi.tof = true ∧ bo.view = bi.view.tdiv kView ∧ bo.tang = bi.tang :=
+  ssrb_commutes_with_binning pin pout kSeg kView trim maxSegArg kTof hinfo hk wf mIn W hmash hmIn hV hW hkV htof0 dp hv bi bo hbi hbir hbo
+
+/-- "histogramming at the coarse sampling equals histogramming finely and then rebinning", bin by bin, with the exact account of
+    trimming: the output geometry's bin `bo` of the pair is written (`∈ targets`) exactly when it lies inside the output's tangential and
+    TOF ranges; and (TOF output, `kSeg` odd) nothing but `bo` is written for that input bin. -/
+theorem C15_ssrb_targets_exact (pin pout : PDI) (kSeg kView trim maxSegArg kTof : Int)
+    (hinfo : ssrbInfo pin kSeg kView trim maxSegArg kTof = some pout) (hk : 0 < kSeg) (hodd : kSeg % 2 = 1) (wf : pin.WF)
+    (mIn W : Int) (hmash : pin.N.tdiv 2 = pin.numViews * mIn) (hmIn : 0 < mIn) (hV : pin.numViews = W * kView) (hW : 0 < W)
+    (hkV : 0 < kView)
+    (htof0 : pin.tofMash = 0 ∨ (0 < pin.tofMash ∧ pin.tofMash % 2 = 1 ∧ kTof % 2 = 1 ∧ 0 < pin.T))
+    (dp : DetPair) (hv : 0 ≤ (detToViewTang pin.N dp.d1 dp.d2).1) (bi bo : Bin)
+    (hbi : pin.toGeom.binForDetPair dp = some bi) (hbir : ∀ sg, pin.seg? bi.seg = some sg → 0 ≤ bi.ax ∧ bi.ax < sg.numAx)
+    (hbit : pin.minTang ≤ bi.tang ∧ bi.tang ≤ pin.maxTang)
+    (hbo : pout.toGeom.binForDetPair dp = some bo) :
+    (bo ∈ targets pin pout bi ↔ (pout.minTang ≤ bo.tang ∧ bo.tang ≤ pout.maxTang ∧ pout.minTof ≤ bo.tof ∧ bo.tof ≤ pout.maxTof)) ∧
+    (0 < pout.tofMash → ∀ x ∈ targets pin pout bi, x = bo) :=
+  ssrb_targets_exact pin pout kSeg kView trim maxSegArg kTof hinfo hk hodd wf mIn W hmash hmIn hV hW hkV htof0 dp hv bi bo hbi hbir hbit hbo
+
+/-- no double counting: an input sinogram is added into at most one output sinogram (odd `kSeg`, TOF output) -/
+theorem C15_ssrb_no_double_counting (pin pout : PDI) (kSeg kView trim maxSegArg kTof : Int)
+    (hinfo : ssrbInfo pin kSeg kView trim maxSegArg kTof = some pout) (hk : 0 < kSeg) (hodd : kSeg % 2 = 1) (wf : pin.WF)
+    (htof : 0 < pout.tofMash) (os oa ot os' oa' ot' is ia it : Int)
+    (h : pullsSino pin pout os oa ot is ia it = true) (h' : pullsSino pin pout os' oa' ot' is ia it = true) :
+    os = os' ∧ oa = oa' ∧ ot = ot' :=
+  pullsSino_unique pin pout kSeg kView trim maxSegArg kTof hinfo hk hodd wf htof os oa ot os' oa' ot' is ia it h h'
+
+/-- the scan of `SSRB(out, in)` over the input segments recovers exactly the group each output segment was built from -/
+theorem C15_ssrb_segment_group (pin : PDI) (wf : pin.WF) (kSeg os : Int) (og : Seg) (hk : 0 ≤ kSeg.tdiv 2)
+    (h : ssrbOutSeg pin kSeg os = some og) :
+    inSegRange pin og = some (os * kSeg - kSeg.tdiv 2, os * kSeg + kSeg.tdiv 2) :=
+  inSegRange_group pin wf kSeg os og hk h
+
+/-- the well-formedness hypothesis is decidable: a Boolean check implies it -/
+theorem C15_wfb_sound (p : PDI) (h : p.wfb = true) : p.WF := p.wfb_sound h
+
+/-- exact account of totals for `SSRB` without normalisation (any geometries): output total = Σ over input bins of
+    value × (number of output bins the loops add it to) -/
+theorem C15_ssrb_total_account (pin pout : PDI) (data out : List (Bin × Rat)) (h : ssrbData pin pout false data = some out) :
+    total out = (data.map fun bv => bv.2 * ((targets pin pout bv.1).length : Rat)).sum :=
+  ssrbData_total pin pout data out h
+
+/-- every input bin is added into at most one output bin (odd `kSeg`, TOF output) -/
+theorem C15_ssrb_at_most_one_target (pin pout : PDI) (kSeg kView trim maxSegArg kTof : Int)
+    (hinfo : ssrbInfo pin kSeg kView trim maxSegArg kTof = some pout) (hk : 0 < kSeg) (hodd : kSeg % 2 = 1) (wf : pin.WF)
+    (htof : 0 < pout.tofMash) (b : Bin) : (targets pin pout b).length ≤ 1 :=
+  targets_length_le_one pin pout kSeg kView trim maxSegArg kTof hinfo hk hodd wf htof b
+
+/-- **`ssrb_conserves_total`** "total counts are conserved when no range is trimmed", with the exact account otherwise: the output total
+    is the total of the input bins that have a target; if every input bin has one (by `C15_ssrb_targets_exact`: the bin of every detector
+    pair whose output bin lies inside the output's tangential / TOF ranges), the total is conserved.  (TOF output; for non-TOF output
+    the uniqueness of the TOF index is not proved — the implementation oracle checks conservation there.) -/
+theorem C15_ssrb_conserves_total (pin pout : PDI) (kSeg kView trim maxSegArg kTof : Int)
+    (hinfo : ssrbInfo pin kSeg kView trim maxSegArg kTof = some pout) (hk : 0 < kSeg) (hodd : kSeg % 2 = 1) (wf : pin.WF)
+    (htof : 0 < pout.tofMash) (data out : List (Bin × Rat)) (h : ssrbData pin pout false data = some out) :
+    total out = total (data.filter fun bv => (targets pin pout bv.1).length != 0) ∧
+    ((∀ bv ∈ data, targets pin pout bv.1 ≠ []) → total out = total data) :=
+  ssrb_conserves_total pin pout kSeg kView trim maxSegArg kTof hinfo hk hodd wf htof data out h
+
+/-- "physical positions": the azimuthal angle of an output view is the mean of the angles of the views mashed into it -/
+theorem C15_ssrb_phi_mean (offIn sampIn : ℚ) (W : ℤ) (k : ℕ) (hW : 0 < W) (hk : 0 < k) (ov : ℤ) :
+    (ssrbPhi offIn sampIn (W * k) k).1 + ov * (ssrbPhi offIn sampIn (W * k) k).2
+      = (∑ j ∈ range k, (offIn + ((ov * k + j : ℤ) : ℚ) * sampIn)) / k :=
+  ssrb_phi_mean offIn sampIn W k hW hk ov
+
+/-! ### the violation on the unchanged tree (C01's "LORs shifted" geometries): negative witness -/
+
+/-- 16 detectors, 4 rings, span 3, max ring difference 2 (`ProjDataInfo::construct_proj_data_info` builds it with a warning) -/
+def witnessIn : PDI :=
+  { N := 16, R := 4, T := 0, minSeg := -1, segs := [⟨-2, -2, 3⟩, ⟨-1, 1, 7⟩, ⟨2, 2, 3⟩], numViews := 8, minTang := -3, maxTang := 3,
+    tofMash := 0, minTof := 0, maxTof := 0 }
+def witnessOut : PDI := { witnessIn with minSeg := 0, segs := [⟨-2, 2, 7⟩] }
+
+theorem C15_witness_is_ssrb_output : ssrbInfo witnessIn 3 1 0 (-1) 1 = some witnessOut := by decide
+
+/-- detector pair (det 0, ring 0)–(det 8, ring 2): histogrammed into input bin (seg 1, ax 0), which `SSRB` adds into output
+    (seg 0, ax 1) — while the output geometry bins the same pair into (seg 0, ax 2).  Replayed on the implementation by the harness
+    (`KNOWN-CANDIDATE ssrb:single-ring-difference-segment-with-axial-positions-of-odd-parity`). -/
+theorem C15_ssrb_shifted_segment_fails :
+    witnessIn.toGeom.binForDetPair ⟨0, 0, 8, 2, 0⟩ = some ⟨1, 0, 0, 0, 0⟩ ∧
+    targets witnessIn witnessOut ⟨1, 0, 0, 0, 0⟩ = [⟨0, 0, 1, 0, 0⟩] ∧
+    witnessOut.toGeom.binForDetPair ⟨0, 0, 8, 2, 0⟩ = some ⟨0, 0, 2, 0, 0⟩ := by decide
+
+/-- the hypothesis of `C15_m_of_ring_pair` that excludes it: segment 1 of the witness is not `Exact` -/
+theorem C15_witness_not_exact : ¬ (⟨2, 2, 3⟩ : Seg).Exact 1 ∧ (⟨2, 2, 3⟩ : Seg).axOff 4 = some 1 := by
+  constructor
+  · intro h; exact absurd (h rfl) (by decide)
+  · decide
+
+/-! ## overlap interpolation / zoom (specification level; the transcribed loops `overlapVec`, `overlapIter` are compared with
+`specBox` on every operation of the correspondence run by the driver — that link is not a theorem) -/
+
+/-- `overlap_spec` + `zoom_preserve_sum` (any box boundaries): consecutive output boxes covering the input ⇒ the total is conserved -/
+theorem C15_overlap_conserves (n m : ℕ) (inv ic oc : ℕ → ℚ)
+    (hic : ∀ j < n, ic j ≤ ic (j + 1)) (hoc : ∀ i < m, oc i ≤ oc (i + 1)) (hl : oc 0 ≤ ic 0) (hr : ic n ≤ oc m) :
+    ∑ i ∈ range m, specBox n inv ic (oc i) (oc (i + 1)) = ∑ j ∈ range n, inv j * (ic (j + 1) - ic j) :=
+  spec_conserves n m inv ic oc hic hoc hl hr
+
+/-- exact account of what a non-covering output range removes: each input box keeps its part inside `[oc 0, oc m]` -/
+theorem C15_overlap_trimmed_account (n m : ℕ) (inv ic oc : ℕ → ℚ)
+    (hic : ∀ j < n, ic j ≤ ic (j + 1)) (hoc : ∀ i < m, oc i ≤ oc (i + 1)) :
+    ∑ i ∈ range m, specBox n inv ic (oc i) (oc (i + 1))
+      = ∑ j ∈ range n, inv j * (clamp (ic j) (ic (j + 1)) (oc m) - clamp (ic j) (ic (j + 1)) (oc 0)) :=
+  spec_sum_general n m inv ic oc hic hoc
+
+/-- `zoom_preserve_values_uniform` (any box boundaries) -/
+theorem C15_overlap_uniform (n : ℕ) (inv ic : ℕ → ℚ) (l r c : ℚ) (hlr : l ≤ r)
+    (hic : ∀ j < n, ic j ≤ ic (j + 1)) (hl : ic 0 ≤ l) (hr : r ≤ ic n)
+    (hc : ∀ j < n, ovLen (ic j) (ic (j + 1)) l r ≠ 0 → inv j = c) :
+    specBox n inv ic l r = c * (r - l) :=
+  spec_uniform n inv ic l r c hlr hic hl hr hc
+
+/-- `zoom_com_bound` (any box boundaries, non-negative data): the centre of mass moves by at most half the sum of the box sizes -/
+theorem C15_overlap_com_bound (n m : ℕ) (inv ic oc : ℕ → ℚ) (win wout : ℚ)
+    (hic : ∀ j < n, ic j ≤ ic (j + 1)) (hoc : ∀ i < m, oc i ≤ oc (i + 1))
+    (hl : oc 0 ≤ ic 0) (hr : ic n ≤ oc m) (hpos : ∀ j < n, 0 ≤ inv j)
+    (hwin : ∀ j < n, ic (j + 1) - ic j ≤ win) (hwout : ∀ i < m, oc (i + 1) - oc i ≤ wout)
+    (htot : 0 < ∑ j ∈ range n, inv j * (ic (j + 1) - ic j)) :
+    |(∑ i ∈ range m, specBox n inv ic (oc i) (oc (i + 1)) * ((oc i + oc (i + 1)) / 2)) / (∑ i ∈ range m, specBox n inv ic (oc i) (oc (i + 1)))
+        - (∑ j ∈ range n, inv j * (ic (j + 1) - ic j) * ((ic j + ic (j + 1)) / 2)) / (∑ j ∈ range n, inv j * (ic (j + 1) - ic j))|
+      ≤ (win + wout) / 2 :=
+  spec_com_shift n m inv ic oc win wout hic hoc hl hr hpos hwin hwout htot
+
+/-- `zoom_preserve_sum` on the regular grids of `zoom_image`, one axis -/
+theorem C15_zoom_axis_preserve_sum (n m : ℕ) (inv : ℕ → ℚ) (ilo olo : ℤ) (zoom offset : ℚ) (hz : 0 < zoom)
+    (hl : outEdge olo zoom offset 0 ≤ inEdge ilo 0) (hr : inEdge ilo n ≤ outEdge olo zoom offset m) :
+    ∑ i ∈ range m, specBox n inv (inEdge ilo) (outEdge olo zoom offset i) (outEdge olo zoom offset (i + 1)) = ∑ j ∈ range n, inv j :=
+  zoom_axis_preserve_sum n m inv ilo olo zoom offset hz hl hr
+
+/-- `zoom_preserve_values_uniform` on the regular grids, one axis: `zoom · out_i = c` -/
+theorem C15_zoom_axis_uniform (n : ℕ) (inv : ℕ → ℚ) (ilo olo : ℤ) (zoom offset c : ℚ) (hz : 0 < zoom) (i : ℕ)
+    (hl : inEdge ilo 0 ≤ outEdge olo zoom offset i) (hr : outEdge olo zoom offset (i + 1) ≤ inEdge ilo n)
+    (hc : ∀ j < n, ovLen (inEdge ilo j) (inEdge ilo (j + 1)) (outEdge olo zoom offset i) (outEdge olo zoom offset (i + 1)) ≠ 0 → inv j = c) :
+    zoom * specBox n inv (inEdge ilo) (outEdge olo zoom offset i) (outEdge olo zoom offset (i + 1)) = c :=
+  zoom_axis_uniform n inv ilo olo zoom offset c hz i hl hr hc
+
+/-- `zoom_com_bound` on the regular grids, one axis, in millimetres: `≤ ½(v_in + v_out)` with `v_out = v_in/zoom` -/
+theorem C15_zoom_axis_com_bound (n m : ℕ) (inv : ℕ → ℚ) (ilo olo : ℤ) (zoom offset vin : ℚ) (hz : 0 < zoom) (hv : 0 < vin)
+    (hl : outEdge olo zoom offset 0 ≤ inEdge ilo 0) (hr : inEdge ilo n ≤ outEdge olo zoom offset m)
+    (hpos : ∀ j < n, 0 ≤ inv j) (htot : 0 < ∑ j ∈ range n, inv j) :
+    let out := fun i => specBox n inv (inEdge ilo) (outEdge olo zoom offset i) (outEdge olo zoom offset (i + 1))
+    let cOut := fun i => vin * ((outEdge olo zoom offset i + outEdge olo zoom offset (i + 1)) / 2)
+    let cIn := fun j => vin * ((inEdge ilo j + inEdge ilo (j + 1)) / 2)
+    |(∑ i ∈ range m, out i * cOut i) / (∑ i ∈ range m, out i) - (∑ j ∈ range n, inv j * cIn j) / (∑ j ∈ range n, inv j)|
+      ≤ (vin + vin / zoom) / 2 :=
+  zoom_axis_com_bound n m inv ilo olo zoom offset vin hz hv hl hr hpos htot
+
+/-! ## non-vacuity -/
+
+/-- 5 rings, span 1 (segments −4 … 4), three segments combined: the group of output segment 1 (input segments 2, 3, 4) -/
+def exampleIn : PDI :=
+  { N := 16, R := 5, T := 0, minSeg := -4,
+    segs := [⟨-4, -4, 1⟩, ⟨-3, -3, 2⟩, ⟨-2, -2, 3⟩, ⟨-1, -1, 4⟩, ⟨0, 0, 5⟩, ⟨1, 1, 4⟩, ⟨2, 2, 3⟩, ⟨3, 3, 2⟩, ⟨4, 4, 1⟩],
+    numViews := 8, minTang := -3, maxTang := 3, tofMash := 0, minTof := 0, maxTof := 0 }
+
+example : ssrbOutSeg exampleIn 3 1 = some ⟨2, 4, 5⟩ := by decide
+
+example : GroupWF exampleIn (1 * 3 - (3 : Int).tdiv 2) (1 * 3 + (3 : Int).tdiv 2) := by
+  have key : ∀ i s, (1 * 3 - (3 : Int).tdiv 2) ≤ i → i ≤ (1 * 3 + (3 : Int).tdiv 2) → exampleIn.seg? i = some s →
+      (i = 2 ∧ s = ⟨2, 2, 3⟩) ∨ (i = 3 ∧ s = ⟨3, 3, 2⟩) ∨ (i = 4 ∧ s = ⟨4, 4, 1⟩) := by
+    intro i s h1 h2 h3
+    have h1' : (2 : Int) ≤ i := h1
+    have h2' : i ≤ (4 : Int) := h2
+    have : i = 2 ∨ i = 3 ∨ i = 4 := by omega
+    rcases this with rfl | rfl | rfl
+    · left; exact ⟨rfl, (Option.some.inj h3).symm⟩
+    · right; left; exact ⟨rfl, (Option.some.inj h3).symm⟩
+    · right; right; exact ⟨rfl, (Option.some.inj h3).symm⟩
+  constructor
+  · intro i s h1 h2 h3
+    rcases key i s h1 h2 h3 with ⟨_, rfl⟩ | ⟨_, rfl⟩ | ⟨_, rfl⟩
+    · exact ⟨2, by decide⟩
+    · exact ⟨3, by decide⟩
+    · exact ⟨4, by decide⟩
+  · intro i s h1 h2 h3
+    rcases key i s h1 h2 h3 with ⟨_, rfl⟩ | ⟨_, rfl⟩ | ⟨_, rfl⟩ <;> decide
+  · intro i s h1 h2 h3
+    rcases key i s h1 h2 h3 with ⟨_, rfl⟩ | ⟨_, rfl⟩ | ⟨_, rfl⟩ <;> decide
+  · intro i j si sj h1 hij h2 h3 h4
+    rcases key i si h1 (by omega) h3 with ⟨rfl, rfl⟩ | ⟨rfl, rfl⟩ | ⟨rfl, rfl⟩ <;>
+      rcases key j sj (by omega) h2 h4 with ⟨rfl, rfl⟩ | ⟨rfl, rfl⟩ | ⟨rfl, rfl⟩ <;>
+      first | decide | omega
+
+
+/-- the same geometry rebinned with 3 segments, 2 views combined, no trimming: hypotheses of `C15_ssrb_commutes_with_binning` hold -/
+def exampleOut : PDI :=
+  { exampleIn with minSeg := -1, segs := [⟨-4, -2, 5⟩, ⟨-1, 1, 9⟩, ⟨2, 4, 5⟩], numViews := 4 }
+
+example : ssrbInfo exampleIn 3 2 0 (-1) 1 = some exampleOut := by decide
+example : exampleIn.WF := C15_wfb_sound exampleIn (by decide)
+example : exampleIn.N.tdiv 2 = exampleIn.numViews * 1 ∧ exampleIn.numViews = 4 * 2 := by decide
+/-- detector pair (det 3, ring 0)–(det 11, ring 3): input bin (seg 3, view 3, ax 0, tang 0), output bin (seg 1, view 1, ax 1, tang 0);
+    `SSRB` writes exactly that bin -/
+example : exampleIn.toGeom.binForDetPair ⟨3, 0, 11, 3, 0⟩ = some ⟨3, 3, 0, 0, 0⟩ ∧
+    exampleOut.toGeom.binForDetPair ⟨3, 0, 11, 3, 0⟩ = some ⟨1, 1, 1, 0, 0⟩ ∧
+    0 ≤ (detToViewTang exampleIn.N 3 11).1 ∧
+    targets exampleIn exampleOut ⟨3, 3, 0, 0, 0⟩ = [⟨1, 1, 1, 0, 0⟩] := by decide
+
+/-- ring pair (0, 3) of that geometry: input (seg 3, ax 0), `m = -2`; output (seg 1, ax 1) has `m = -2` too -/
+example : (⟨3, 3, 2⟩ : Seg).axOff 5 = some 3 ∧ (⟨3, 3, 2⟩ : Seg).Exact 3 ∧ (⟨3, 3, 2⟩ : Seg).axOf 3 0 3 = 0 ∧ (⟨3, 3, 2⟩ : Seg).m4 0 = -2 ∧
+    (⟨2, 4, 5⟩ : Seg).axOff 5 = some 2 ∧ (⟨2, 4, 5⟩ : Seg).axOf 2 0 3 = 1 ∧ (⟨2, 4, 5⟩ : Seg).m4 1 = -2 := by
+  refine ⟨by decide, ?_, by decide, by decide, by decide, by decide, by decide⟩
+  intro _; decide
+
+/-- TOF: 9 unmashed bins, mashing 1, three bins combined: `t = 4 ↦` input bin 4, output bin 1; window accepts exactly that -/
+example : tofInWindow 1 (1 * 3) (roundDiv 4 1) 1 = true ∧ roundDiv 4 (1 * 3) = 1 ∧ tofInWindow 1 (1 * 3) (roundDiv 4 1) 2 = false := by decide
+
+/-- overlap conservation, centre of mass, uniform data: 3 input boxes `[0,1],[1,2],[2,3]` with values 1, 2, 3 into two output boxes
+    `[-1, 1.5], [1.5, 4]` -/
+def exIn : ℕ → ℚ := fun j => (j : ℚ) + 1
+def exIc : ℕ → ℚ := fun j => (j : ℚ)
+def exOc : ℕ → ℚ := fun i => -1 + 5 / 2 * (i : ℚ)
+
+example : ∑ i ∈ range 2, specBox 3 exIn exIc (exOc i) (exOc (i + 1)) = ∑ j ∈ range 3, exIn j * (exIc (j + 1) - exIc j) := by
+  apply C15_overlap_conserves 3 2 exIn exIc exOc
+  · intro j _; simp only [exIc]; push_cast; linarith
+  · intro i _; simp only [exOc]; push_cast; linarith
+  · simp only [exOc, exIc]; norm_num
+  · simp only [exOc, exIc]; norm_num
+
+example : (∀ j < 3, 0 ≤ exIn j) ∧ 0 < ∑ j ∈ range 3, exIn j * (exIc (j + 1) - exIc j) ∧ (∀ j < 3, exIc (j + 1) - exIc j ≤ 1) ∧
+    (∀ i < 2, exOc (i + 1) - exOc i ≤ 5 / 2) := by
+  refine ⟨fun j _ => by simp only [exIn]; positivity, ?_, fun j _ => by simp only [exIc]; push_cast; linarith,
+    fun i _ => by simp only [exOc]; push_cast; linarith⟩
+  simp only [exIn, exIc, sum_range_succ, sum_range_zero]; norm_num
+
 end StirVerif.C15
